@@ -145,19 +145,21 @@ impl Execution {
                 None => continue,
             };
 
-            if let Some(access) = self.objects.last_dependent_access(operation) {
+            let path = &mut self.path;
+
+            self.objects.for_each_dependent_access(operation, |access| {
                 if access.happens_before(&th.dpor_vv) {
                     // The previous access happened before this access, thus
                     // there is no race.
-                    continue;
+                    return;
                 }
 
                 // Get the point to backtrack to
                 let point = access.path_id();
 
                 // Track backtracking point
-                self.path.backtrack(point, th_id);
-            }
+                path.backtrack(point, th_id);
+            });
         }
 
         // It's important to avoid pre-emption as much as possible
@@ -229,9 +231,9 @@ impl Execution {
             let threads = &mut self.threads;
             let th_id = threads.active_id();
 
-            if let Some(access) = self.objects.last_dependent_access(operation) {
+            self.objects.for_each_dependent_access(operation, |access| {
                 threads.active_mut().dpor_vv.join(access.version());
-            }
+            });
 
             threads.active_mut().dpor_vv[th_id] += 1;
 
